@@ -280,6 +280,20 @@ func headerLen(obj codecPDU) []int {
 	return []int{}
 }
 
+// setHeaderLen stores v in the total-length member of the header (what an earlier encode or decode left there)
+func setHeaderLen(obj codecPDU, v uint64) {
+	h := reflect.ValueOf(obj).Elem().FieldByName("Header")
+	if !h.IsValid() {
+		return
+	}
+	for _, n := range []string{"TotalLength", "Length"} {
+		if f := h.FieldByName(n); f.IsValid() && f.CanSet() {
+			f.SetUint(v)
+			return
+		}
+	}
+}
+
 // assignToJSON / assignFromJSON move assignments through case files
 func assignToJSON(tn string, a assign) map[string]interface{} {
 	out := map[string]interface{}{}
